@@ -14,6 +14,59 @@ type C08Case struct {
 	Prior   *Cfg `json:"prior"` // nil = passthrough
 	Debug   bool `json:"debug"`
 	Invalid Cfg  `json:"invalid"`
+	// Derived: the invalid configuration is obtained at check time from the
+	// middleware's own Config() (the get-modify-set workflow) by applying Edit.
+	Derived bool   `json:"derived,omitempty"`
+	Edit    string `json:"edit,omitempty"`
+}
+
+var c08Edits = []string{"pna", "pna-nocors", "both-pna", "credentialed", "star-origin", "insecure-origin", "psl-origin", "bad-origin", "bad-method", "bad-reqhdr", "bad-reshdr",
+	"star-reshdr", "maxage", "status", "untolerate-insecure", "untolerate-psl", "no-origins"}
+
+// applyEdit plants one change into a copy of the current configuration.
+func applyEdit(c Cfg, edit string) Cfg {
+	c.Origins = append([]Str{}, c.Origins...)
+	switch edit {
+	case "pna":
+		c.PNA = true
+	case "pna-nocors":
+		c.PNANoCORS = true
+	case "both-pna":
+		c.PNA, c.PNANoCORS = true, true
+	case "credentialed":
+		c.Credentialed = true
+	case "star-origin":
+		c.Origins = append(c.Origins, "*")
+		c.Credentialed = true
+	case "insecure-origin":
+		c.Origins = append(c.Origins, "http://insecure.example")
+		c.Credentialed, c.TolInsecure = true, false
+	case "psl-origin":
+		c.Origins = append(c.Origins, "https://*.com")
+		c.TolPSL = false
+	case "bad-origin":
+		c.Origins = append(c.Origins, "https://example.com/")
+	case "bad-method":
+		c.Methods = append(append([]Str{}, c.Methods...), "TRACE")
+	case "bad-reqhdr":
+		c.RequestHeaders = append(append([]Str{}, c.RequestHeaders...), "Cookie")
+	case "bad-reshdr":
+		c.ResponseHeaders = append(append([]Str{}, c.ResponseHeaders...), "Set-Cookie")
+	case "star-reshdr":
+		c.ResponseHeaders = append(append([]Str{}, c.ResponseHeaders...), "*")
+		c.Credentialed = true
+	case "maxage":
+		c.MaxAge = 86401
+	case "status":
+		c.Status = 456
+	case "untolerate-insecure":
+		c.TolInsecure = false
+	case "untolerate-psl":
+		c.TolPSL = false
+	case "no-origins":
+		c.Origins = nil
+	}
+	return c
 }
 
 // repaired removes every violation from an atom-built configuration, keeping
@@ -59,6 +112,11 @@ func c08Gen(t *rapid.T) C08Case {
 		c.Prior = &p
 		c.Debug = chance(t, "debug", 50)
 	}
+	if c.Prior != nil && chance(t, "derived", 50) {
+		c.Derived = true
+		c.Edit = pick(t, "edit", c08Edits)
+		return c
+	}
 	for {
 		mix := mixMany
 		if chance(t, "single", 50) {
@@ -85,10 +143,27 @@ func c08Check(c C08Case, rec *Recorder) *Disc {
 		}
 		m.SetDebug(c.Debug)
 	}
-	if exp, ok := Violations(c.Invalid); !ok || len(exp) == 0 {
+	if c.Derived {
+		if m.Config() == nil {
+			return nil
+		}
+		// get-modify-set: start from the middleware's own normal form
+		c.Invalid = applyEdit(CfgFromCors(m.Config()), c.Edit)
+		// is the edited configuration really invalid? ask a fresh middleware
+		if _, err := cors.NewMiddleware(c.Invalid.Cors()); err == nil {
+			rec.Class("derived-edit-still-valid")
+			return nil
+		}
+		rec.Class("derived:" + c.Edit)
+	} else if exp, ok := Violations(c.Invalid); !ok || len(exp) == 0 {
 		return nil
 	}
 	rep := repaired(c.Invalid)
+	if c.Derived {
+		// what a partial application would install: the edit without its offending part
+		rep = CfgFromCors(m.Config())
+		rep.MaxAge, rep.Status = 77, 201
+	}
 	var suite []Req
 	if c.Prior != nil {
 		suite = append(suite, Suite(*c.Prior)...)
@@ -135,7 +210,7 @@ func c08Check(c C08Case, rec *Recorder) *Disc {
 
 func TestC08(t *testing.T) {
 	Prop[C08Case]{ID: "C08", Gen: c08Gen, Check: c08Check,
-		Rule: "generator: prior state in {passthrough, any valid configuration x debug on/off} x invalid configuration from the labelled-atom generator (exactly one planted violation, or many simultaneous violations; the other fields valid and unrelated to the prior state). " +
+		Rule: "generator: prior state in {passthrough, any valid configuration x debug on/off} x invalid configuration: either from the labelled-atom generator (exactly one planted violation, or many simultaneous violations; the other fields valid and unrelated to the prior state) or DERIVED from the middleware's own Config() by one of 17 edits (get-modify-set: switch on a PNA mode or credentials, add */insecure/public-suffix/malformed origin, bad method/header, bounds, drop a tolerate switch), judged invalid by a fresh NewMiddleware. " +
 			"Oracle: Reconfigure returns non-nil; responses on Suite(prior) u Suite(repaired(invalid)), the Config() value and passthrough-ness are the same before and after. " +
 			"non-trivial = the 'repaired' variant of the invalid configuration (violations removed, valid fields kept) answers the suite differently from the prior state, i.e. a partial application would be visible; distinct by (prior, debug, invalid).",
 		Assumptions: []string{"debug mode is observed through the failing-preflight requests of the suite"}}.Run(t)
